@@ -173,6 +173,15 @@ Definition check_e2e (c : e2e) : list nat :=
        else []))
   end.
 
+(* a MPEG-TS presentation given at the level of mediacommon's Reader: the PMT as Reader.Tracks()
+   lists it (supported and unsupported elementary streams) and every PES the demultiplexer
+   completes, [pe_track] = position of its PID in the PMT. The model filters ([readerView]:
+   initializeReader's supportedTracks, Reader.Read's onData lookup); the reported tracks are
+   [reportedTracksPMT]. *)
+Definition EP (leading : pmtStream) (rends : list pmtStream)
+           (tracks : list (Z * bool)) (obs : list (list obsUnit)) (outcome : Z) : e2e :=
+  EM (readerView leading) (map readerView rends) tracks obs outcome.
+
 Inductive tcase := TD (c : dcase) | TE (c : e2e).
 
 Definition check_case (c : tcase) : list nat :=
